@@ -16,6 +16,10 @@ statement on byte lists (`List Nat`) with explicit byte cursors.
   executed (then `len(s) ≥ 1`), which the model keeps as `Option` (`none` = not grown).
 * `SubByDisplay` is the REPAIRED code (finding F9, see `Golib/Findings/C17.lean` for the
   pre-fix algorithm and its refutation).
+* `Mask` is the REPAIRED code (finding F15: `l - start - end` wrapped around in `int` for
+  huge non-negative arguments; the guard `if start > l || end > l { return str }` keeps every
+  intermediate value within `[-l, l]`; `Golib/Findings/C17.lean` has the pre-fix refutation and
+  the proof that the repaired code computes the same with 64-bit wrap-around arithmetic).
 -/
 import Golib.Proto
 import Golib.Prelude.Utf8
@@ -77,6 +81,8 @@ def maskLoop (s : List Nat) (start end_ : Int) : Nat → Nat → Nat → Nat →
 
 def mask (str msk : List Nat) (start end_ : Int) : Option (List Nat) :=
   let l : Int := runeCount str
+  if start > l ∨ end_ > l then some str      -- F15 repair: keeps `l - start - end` inside `int`
+  else
   let ml := l - start - end_
   if ml ≤ 0 then some str
   else
